@@ -102,6 +102,18 @@ theorem agg_count_depth_preserves {α : Type} (lo hi : Nat) (h : depthGuard lo h
 /-- without the guard (lower bound 0) the zero-length matches are lost -/
 theorem agg_count_depth_needs_guard : loweredDepths 0 1 (fun d => [d]) ≠ generalDepths 0 1 (fun d => [d]) := by decide
 
+/-! ### limit pushdown: the tail WHERE must be transparent -/
+
+/-- the helper that decides `whereTransparent` is, condition by condition and return by return, the analysed one: a new early
+`return true` (or a dropped check) in `shortestPathLimitPushdownTransparentWhere` breaks this tie -/
+theorem transparent_where_tie : Generated.C02Guard.transparentWhere = transparentWhereFacts := by decide
+
+/-- why the guard is needed: cutting to k rows BEFORE a filter is not cutting AFTER it — on the two-row frame [blocked, free] with the
+filter "not blocked" and k = 1 the pushed-down form returns nothing, the written form returns the free row -/
+theorem limit_below_filter_loses_rows :
+    (([true, false] : List Bool).take 1).filter (fun blocked => !blocked) = [] ∧
+    (([true, false] : List Bool).filter (fun blocked => !blocked)).take 1 = [false] := by decide
+
 /-! ### collect-id membership: the declaration test -/
 
 theorem alias_declaration_tie : Generated.C02Guard.aliasDeclaration = aliasDeclarationFacts := by decide
